@@ -44,7 +44,10 @@ Molecules ==
        [name |-> "CH4",   z |-> <<6, 1, 1, 1, 1>>, xyz |-> <<R3(0, 0, 0), R3(119, 119, 119), R3(-119, -119, 119), R3(-119, 119, -119), R3(119, -119, -119)>>],
        [name |-> "CH3Cl", z |-> <<6, 17, 1, 1, 1>>, xyz |-> <<R3(0, 0, 0), R3(0, 0, 337), R3(194, 0, -65), R3(-97, 168, -65), R3(-97, -168, -65)>>],
        [name |-> "CONHCl", z |-> <<6, 8, 7, 1, 17>>, xyz |-> <<R3(0, 0, 0), R3(0, 0, 228), R3(225, 0, -120), R3(380, 0, 0), R3(-290, 0, -160)>>],
-       [name |-> "crowd", z |-> <<1, 1, 8, 6, 1>>, xyz |-> <<R3(0, 0, 0), R3(120, 0, 0), R3(0, 125, 0), R3(0, 0, 130), R3(90, 90, 90)>>] >>
+       [name |-> "crowd", z |-> <<1, 1, 8, 6, 1>>, xyz |-> <<R3(0, 0, 0), R3(120, 0, 0), R3(0, 125, 0), R3(0, 0, 130), R3(90, 90, 90)>>],
+       \* elements without a tabulated Bragg-Slater radius (the atom-in-molecule weights fall back to a neighbour's)
+       [name |-> "HeH",   z |-> <<2, 1>>,          xyz |-> <<R3(0, 0, 0), R3(0, 0, 146)>>],
+       [name |-> "ArOH",  z |-> <<18, 8, 1>>,      xyz |-> <<R3(0, 0, 0), R3(0, 0, 420), R3(0, 170, 500)>>] >>
 Dist2(a_, b_) == QSum([k \in 1..3 |-> QMul(QSub(a_[k], b_[k]), QSub(a_[k], b_[k]))])
 \* admissibility of the templates for the end-to-end clause: at least 1.2 bohr apart, at most 5 atoms
 MoleculesAdmissible ==
